@@ -235,6 +235,19 @@ fn scenario(updates: &[Ev]) -> ExecResult {
 }
 
 pub fn main(args: &Args) -> i32 {
+    if let Some(p) = &args.replay {
+        return crate::sched::replay(p, |_, j| {
+            let text = j["updates"].as_str().unwrap_or("[]").to_string();
+            let updates: Vec<Ev> = UPDATES.iter().filter(|e| text.contains(&format!("{e:?}"))).cloned().collect();
+            // `Set1`/`Set2` are substrings of nothing else; `Invalidate` is a substring of
+            // `SetQInvalidateP`: keep it only when it appears as a list element
+            let updates: Vec<Ev> = updates
+                .into_iter()
+                .filter(|e| *e != Ev::Invalidate || text.replace("SetQInvalidateP", "").contains("Invalidate"))
+                .collect();
+            Some(Box::new(move || scenario(&updates)))
+        });
+    }
     let report = Report::new("C31", args.tier, args.seed, "model_checking");
     let totals = Mutex::new(Totals::default());
     let quick = args.tier == vcommon::Tier::Quick;
